@@ -33,7 +33,7 @@ CODES = {
     'C14': {8},
     'C16': {11},
     'C15': {8},
-    'C04': {2, 3, 4, 22, 23, 24, 5, 6, 7},
+    'C04': {2, 3, 22, 23, 24, 5, 6, 7},        # not 4: an upstream element's acceleration feeds nothing the output trajectory depends on
 }
 ERR_KEYWORDS = {
     'C01': ['angular_position', 'angular_speed', 'angular_acceleration', 'transmit'],
@@ -121,7 +121,39 @@ def compare(name, scs, res, per=25):
     return mism, errs
 
 
-def concerns(pid, sc, res, code, inst, plain_mismatch):
+def prefix_codes(pid, scs, res, mism):
+    """gearpy raised at operation k where the model did something else (codes 12, 13): compare the operations BEFORE k, which both
+    completed; a field that already differs there is the root cause and decides which property the disagreement concerns"""
+    idx, cut = [], []
+    for g, c, _ in mism:
+        if c in (12, 13) and res[g].get('err') and not res[g].get('build_failed'):
+            k = len(res[g]['marks'])
+            ops = scs[g]['ops'][:k]
+            if any(op[0] == 'run' for op in ops):
+                idx.append(g)
+                cut.append(dict(scs[g], ops=ops))
+    if not cut:
+        return {}
+    cut, idx = cut[:40], idx[:40]
+    try:
+        rs = execute(cut)
+    except Exception:  # noqa  (a history that cannot even be read back: leave the attribution to the traceback)
+        return {}
+    ok = [i for i, r in enumerate(rs) if r['err'] is None]
+    if not ok:
+        return {}
+    mm, errs = compare('solver_' + pid + '_prefix', [cut[i] for i in ok], [rs[i] for i in ok])
+    if errs:
+        return {}
+    out = {idx[i]: 0 for i in ok}
+    for j, c, _ in mm:
+        out[idx[ok[j]]] = c
+    return out
+
+
+def concerns(pid, sc, res, code, inst, plain_mismatch, prefix_code=None):
+    if code in (12, 13) and prefix_code:
+        code = prefix_code            # the operations before the raise already disagree: attribute by that field
     if code == 14:
         # the model raised (class in `inst`: 1 TypeError, 2 ValueError, ...) where gearpy did not: with a rule set in play this is
         # the arbitration / rules (two applicable rules, setter range), otherwise it may concern anything
@@ -165,7 +197,8 @@ def correspondence(pid, tier, seed):
     plain_mismatch = False
     if pid == 'C12' and mism:
         plain_mismatch = not schedule_specific([scs2[g] for g, _, _ in mism[:12]])
-    mine = [(g, c, k) for g, c, k in mism if concerns(pid, scs2[g], res2[g], c, k, plain_mismatch)]
+    pre = prefix_codes(pid, scs2, res2, mism)
+    mine = [(g, c, k) for g, c, k in mism if concerns(pid, scs2[g], res2[g], c, k, plain_mismatch, pre.get(g))]
     failing = []
     if mine:
         g, c, k = mine[0]
